@@ -237,10 +237,10 @@ COMMON_WORLD = ("CacheD-level harnesses: a CacheD built by struct literal from t
 PROPERTY_NOTES = {
     "C01": dict(
         bounds="CacheWeight step: limit 1..=i64::MAX, 2 resident ids (quick; arbitrary occupancy of 3 at thorough) with arbitrary positive weights, op in add/update/delete/clear with arbitrary weight; "
-               "admission: 1, 2 and 3 residents with arbitrary weights, arbitrary limit, arbitrary incoming weight (above the limit included), arbitrary frequency profile, and an arbitrary amount of weight IN FLIGHT "
-               "(total = sum of charged weights + g, g >= 0: the state in which another thread's delete has removed its map entry but not yet subtracted its weight); worker Put/PutWithTTL step on a whole CacheD. " + COMMON_WORLD,
-        outside="crossing interleavings of two multi-step operations beyond the in-flight pre-state; more than 3 resident keys; the total observed between two shared-memory operations of one step (only before/after each operation)",
-        explanation="inductive: every step that can change the total (add, update, delete, clear, maybe_add incl. eviction, worker put) from an arbitrary state with 0 <= total <= limit re-establishes 0 <= total <= limit; "
+               "admission: 1 resident (quick) and 2 residents (thorough) with arbitrary weights, arbitrary limit, arbitrary incoming weight (above the limit included), arbitrary frequency profile, and an arbitrary amount of weight IN FLIGHT "
+               "(total = sum of charged weights + g, g >= 0: the state in which another thread's delete has removed its map entry but not yet subtracted its weight); quick: one resident, thorough: two residents. " + COMMON_WORLD,
+        outside="crossing interleavings of two multi-step operations beyond the in-flight pre-state; admission with 3 or more residents (harness built, does not complete: DESIGN.md section 4); the total observed between two shared-memory operations of one step (only before/after each operation)",
+        explanation="inductive: every step that can change the total (add, update, delete, clear, maybe_add incl. eviction) from an arbitrary state with 0 <= total <= limit re-establishes 0 <= total <= limit; "
                     "the one step that does not (UpdateWeight with an increase above the free space) is the recorded finding F1",
         assumptions=["dashmap model: entry operations atomic; parking_lot model: mutual exclusion"]),
     "C02": dict(
@@ -259,12 +259,12 @@ PROPERTY_NOTES = {
         outside="a second client writing the same key concurrently with the delete; a reader holding a get_ref guard across the delete (DashMap guard semantics)",
         explanation="(a) after delete returns, before the worker runs, both read paths return None and only the soft-delete mark changed; (b) after the worker step: Accepted iff held, entry/weight/expiry entry gone, total reduced by exactly the weight, others untouched, else Rejected(KeyDoesNotExist) and nothing changed; (c) re-put is not 'already exists'"),
     "C05": dict(
-        bounds="CacheWeight one-step harness (see C01) with the total == sum identity; worker Put/PutWithTTL step on a whole CacheD with and without pressure; client put step; delete step; fresh ids. " + COMMON_WORLD,
-        outside="more than one command in flight for the same key except the recorded finding F3 (its region is excluded and reported as KNOWN-FINDING)",
+        bounds="CacheWeight one-step harness (see C01) with the total == sum identity; admission step with one resident; one-key-world CacheD harnesses: a Put applied by the real worker while the key is held (finding F3 demonstrated), puts of expired-unswept / soft-deleted keys (caller-side guard while F3 stands); delete step; fresh ids. " + COMMON_WORLD,
+        outside="the worker's Put under memory pressure on a whole CacheD (harness built, does not complete: DESIGN.md section 4); more than one command in flight for the same key except the recorded finding F3",
         explanation="inductive: each step re-establishes 'store and weight map in bijection by id, total == sum of charged weights'; the pre-state in which a Put for an already-held key is queued (two puts before the first is applied) is the recorded finding F3"),
     "C06": dict(
         bounds="comparator: all (id, weight, frequency) triples (full width); sampler: 3 residents with arbitrary weights and per-hash frequencies, sample sizes 1..=3 (refill exercised with size < residents) and 5; "
-               "maybe_add: 1, 2, 3 residents (concrete occupancy; symbolic at thorough), limit 1..=i64::MAX, arbitrary weights, incoming weight 1..=i64::MAX, estimates 0..=16 per key through the real TinyLFU/sketch/doorkeeper code (ties, saturation), weight in flight",
+               "maybe_add: 1 resident (quick) and 2 residents (thorough; 3 residents built but does not complete), limit 1..=i64::MAX, arbitrary weights, incoming weight 1..=i64::MAX, estimates 0..=16 per key through the real TinyLFU/sketch/doorkeeper code (ties, saturation), weight in flight",
         outside="more than 3 residents in the maybe_add harness (refill inside create_space needs > 5; refill itself is checked on the sampler with smaller sample sizes); tie-break among equal maxima of the victim heap follows VERIF_SEED parity (std leaves it unspecified)",
         explanation="the TinyLFU admission rule written as an executable checker over the observed eviction sequence (victim = a minimum of the sample by (estimate asc, weight desc), evicted only while space is short and only if its estimate <= incoming estimate; accepted iff enough space results)",
         assumptions=["BinaryHeap stand-in: pop returns a greatest element under the crate's own Ord for SampledKey"]),
@@ -273,9 +273,9 @@ PROPERTY_NOTES = {
         outside="the worker side of admission (C06/C05)",
         explanation="readable key => Ready(Rejected(KeyAlreadyExists)), nothing queued, state untouched; absent key => never that reason, exactly one Put/PutWithTTL with key, fresh id, hash, TTL-aware weight, value, TTL; expired-unswept key rejected as existing is the recorded finding F4"),
     "C08": dict(
-        bounds="all 11 well-formed request shapes (value? weight? ttl? remove?) x key in every life-cycle state; explicit weights 1..2^40; the UpdateWeight command is then applied by the real worker; kernels: updated_weight for all 16 field combinations, StoredValue::update from arbitrary entries, the request builder. " + COMMON_WORLD,
-        outside="sequences of more than one upsert; implicit (recomputed) weights are compared with the code's own documented rule only",
-        explanation="differential against the abstract entry: value/expiry changed exactly as requested and visible on return, expiry index follows, explicit weight becomes the charged weight after the worker step, absent key => exactly the corresponding put command; findings F5 (dying entry updated in place) and F6 (remove-TTL on weight <= 24 panics) are excluded as regions and reported as KNOWN-FINDING"),
+        bounds="all 11 well-formed request shapes (value? weight? ttl? remove?) x key in every life-cycle state; explicit weights 1..900 on a one-key world (held key of weight 50, with / without TTL, TTL part of the request concrete per harness); absent keys on the three-key world; kernels: updated_weight for all 16 field combinations, StoredValue::update from arbitrary entries, the request builder. " + COMMON_WORLD,
+        outside="the worker applying the queued UpdateWeight after an in-place upsert on the three-key world (harnesses built, do not complete: DESIGN.md section 4; CacheWeight::update itself is checked in c05_cache_weight_step); sequences of more than one upsert",
+        explanation="differential against the abstract entry: value/expiry changed exactly as requested and visible on return, expiry index follows, the queued UpdateWeight command carries the requested weight (its application is CacheWeight::update, checked in c05_cache_weight_step), absent key => exactly the corresponding put command; findings F5 (dying entry updated in place) and F6 (remove-TTL on weight <= 24 panics) are excluded as regions and reported as KNOWN-FINDING"),
     "C09": dict(
         bounds="put instant, TTL and look instants: seconds 0..=2^40, any nanoseconds, full carry arithmetic; one TTL change (new / remove / keep, with or without value) from an ARBITRARY stored entry (any expiry, soft-deleted or not) followed by a look at any later instant; Store::get/get_ref at store level; all read variants at CacheD level",
         outside="TTL near Duration::MAX (C17); clock before the epoch",
@@ -285,17 +285,17 @@ PROPERTY_NOTES = {
         outside="wall-clock ticking of crossbeam's tick (assumed to deliver ticks); shard counts other than 2; a sweep interleaved inside put_or_update between the store update and the index update",
         explanation="after a tick at t in shard s = t.secs mod shards: evicted (hook called once, entry dropped) <=> entry sits in shard s and t > expiry; all other entries untouched; arithmetic liveness lemma: expired and congruent second => swept by this tick; index operations keep each id in exactly the shard of its current expiry"),
     "C11": dict(
-        bounds="client side: each write call that reaches the queue adds exactly one command and returns the acknowledgement of that command (put, delete, put_or_update steps); worker side: the real worker closure consumes one queued command, executes, acknowledges, parks; fresh ids",
-        outside="bursts of several unawaited commands and queue-full blocking (harness planned, not yet committed); FIFO-ness across producers is the channel's contract (model)",
+        bounds="put(k); delete(k) issued back to back without awaiting on an empty cache, then the real worker closure runs: both queued, dequeued once each in FIFO order (ghost sequence numbers), acknowledged, k absent; client put step: one call -> one command with the caller's acknowledgement; fresh ids",
+        outside="three-command bursts with sends blocking on a full queue (harness built, does not complete: DESIGN.md section 4); FIFO-ness across producers is the channel's contract (model)",
         explanation="per-step obligations: one call -> one queued command with the caller's acknowledgement; one worker iteration -> one dequeue, one execution, one done()"),
     "C12": dict(
         bounds="one completion with any final status (6 values), a pending poll before it, one more poll (same or different waker) placed by the solver at ANY shared-memory access of done() (flag, status lock, waker lock), two polls afterwards; reverse nesting: the whole done() placed at any shared access of poll(); pre-resolved acknowledgements",
         outside="weak-memory reorderings of the Release/Acquire pair (CBMC is sequentially consistent); two polls crossing each other",
         explanation="no poll yields Ready(Pending); every Ready carries the status passed to done(); the most recent poller that was told Pending is woken; after completion every poll yields the same status. The window between the flag store and the status write is the recorded finding F2"),
     "C13": dict(
-        bounds="sweeper: terminates at its first tick after shutdown(), clear() empties the index (quick); worker/drain and API gate harnesses are planned",
-        outside="racing writers inside shutdown(); liveness of OS threads",
-        explanation="sweeper exit path after shutdown"),
+        bounds="commands queued behind Shutdown are answered ShuttingDown and not executed, the one ahead runs (real worker closure incl. drain loop); sweeper terminates at its first tick after shutdown(), clear() empties the index; consumer terminates on the Shutdown event, later hand-overs are counted as dropped, clear() resets statistics",
+        outside="the API gate after shutdown(), shutdown on a full queue and a send racing the drain (harnesses built, do not complete: DESIGN.md section 4); liveness of OS threads",
+        explanation="per-actor exit obligations: worker drain answers everything queued behind Shutdown, sweeper and consumer stop"),
     "C14": dict(
         bounds="kernels: all 2^16 contents of a 2-byte row x 4 positions; next_power_2: all counters in 1..=2^63 (full width); "
                "stateful sketch harnesses: width 4 (2 bytes/row) with arbitrary contents, arbitrary 64-bit seeds and hashes; TinyLFU window step with ageing threshold 1..=6 and any count below it, doorkeeper with solver-chosen false positives; "
@@ -317,9 +317,9 @@ PROPERTY_NOTES = {
         outside="allocation failure; panics inside client-supplied closures; TTL near Duration::MAX and weights near i64::MAX on the upsert path (boundary harness planned)",
         explanation="a reachable panic in any harness is a failed check of that harness"),
     "C18": dict(
-        bounds="lock-order / re-entrancy monitor active in the models (re-entrant acquisition is an assertion in every harness); acknowledgement done/poll under interference; hit path takes exactly one lock and no blocking operation",
-        outside="the cross-harness lock-order graph (planned); fairness; real lock implementations",
-        explanation="no re-entrant acquisition on any explored path; no lock held at a blocking queue operation on the hit path"),
+        bounds="lock-order graph: one reachability query per ordered pair of lock/queue classes in each C18 harness (cache-weight ops, pool add, ack races, delete + worker, unawaited put+delete + worker, get_ref hit path, guard-held races, real sweeper with real evict hook on a one-key world); union graph checked for cycles; re-entrant acquisition is an assertion in every harness",
+        outside="the worker's eviction path through its real delete hook (harness runs out of memory); fairness; real lock implementations; more than two logical threads",
+        explanation="acquisitions respect a partial order (the observed held->acquired edges are acyclic), no re-entrant acquisition, no blocking send under a lock on the explored paths"),
 }
 GENERIC_NOTE = ("Trusted: Kani/CBMC/CaDiCaL; the verification models of dashmap, parking_lot, crossbeam-channel, hashbrown, bloomfilter, rand "
                 "(documented contracts, listed in evidence); rustc MIR -> goto translation; Key=Value=u64 instantiation; sequential consistency. "
@@ -337,14 +337,14 @@ _LEVEL = {
     "C08": "Bounded differential check of put_or_update over all well-formed request shapes x key states, including the worker's application of the weight update; two recorded findings are excluded by region.",
     "C09": "Bounded check of expiry arithmetic and the alive filter over all put instants, TTLs, TTL changes and look instants up to 2^40 s with nanosecond carry, at StoredValue, Store and CacheD level.",
     "C10": "Bounded check of the real sweeper closure (one tick at any instant over arbitrary index contents) and of the expiry-index operations keeping each id in the shard of its current expiry.",
-    "C11": "Bounded per-step check: one write call -> one queued command carrying the caller's acknowledgement; one worker iteration -> one dequeue, execution, acknowledgement.",
+    "C11": "Bounded check of an unawaited put followed by a delete of the same key through the real worker (exactly-once, FIFO by ghost sequence numbers, key absent afterwards) plus the per-call obligation: one write call -> one queued command carrying the caller's acknowledgement.",
     "C12": "Bounded check of done()/poll() with one interfering poll (or done) placed by the solver at every shared-memory access of the other operation: never Ready(Pending), real status, wake-up of the last pending poller; the flag-before-status window is a recorded finding.",
-    "C13": "Bounded check of the sweeper's exit after shutdown and clear(); the remaining shutdown obligations are not yet covered (see DESIGN.md).",
+    "C13": "Bounded check of the worker's drain after Shutdown (everything behind it answered ShuttingDown, nothing executed), of the sweeper's and the consumer's exit and of clear(); the API gate and races inside shutdown() are not decided (harnesses do not complete, DESIGN.md section 4).",
     "C14": "Bounded model checking of the real sketch code: packed-counter kernels over all byte values and positions, sizing over all counters 1..=2^63, one-step inductive obligations from arbitrary sketch contents, seeds and hashes at width 4, constructor for counters 1..=9, TinyLFU window/threshold logic with a solver-chosen doorkeeper.",
     "C15": "Bounded check of the access-accounting identity for one record from arbitrary pool/buffer/queue states incl. saturated and stopped consumer, and that the hit path takes one lock and never blocks.",
     "C16": "Bounded check of every statistics counter method, the weight-statistics identity, hit/miss accounting of reads, and the hit ratio (counters <= 255); the all-hit ratio 0 is a recorded finding.",
     "C17": "Every harness fails on any reachable panic/overflow/out-of-bounds of the real code; the C17 list adds constructor and builder boundaries.",
-    "C18": "Re-entrant lock acquisition is an assertion in every harness (lock models); hit path: one lock, no blocking operation; acknowledgement under interference.",
+    "C18": "Lock-order graph built from solver-decided reachability of every held->acquired pair of lock/queue classes over the C18 harnesses, checked for cycles; re-entrant acquisition is an assertion in every harness; hit path: one lock, no blocking operation.",
 }
 for _p, _t in _LEVEL.items():
     MANIFEST_TEXT[_p] = dict(level=_t + " Universally quantified inputs/states are exactly what the unit tests cannot sample; the verdict holds for every value inside the stated bounds only.", note=GENERIC_NOTE)
